@@ -448,4 +448,48 @@ theorem ofCalls_parents_length (k : Hash → Option (List Key)) (f0 : Frame) (fs
   | nil => simp
   | cons f fs ih => intro e; simp [List.foldl_cons, ih, Env.push]; omega
 
+theorem scanSigners_none (e : Env) (h : Hash) (ss : List Signer) (hns : ∀ s ∈ ss, s.account ≠ h) :
+    scanSigners e h ss = .ok false := by
+  induction ss with
+  | nil => rfl
+  | cons c cs ih =>
+    have hc : c.account ≠ h := hns c (by simp)
+    simp only [scanSigners]
+    rw [if_neg (by simpa using hc)]
+    exact ih (fun s hs => hns s (by simp [hs]))
+
+theorem scanSigners_decides (e : Env) (h : Hash) (s : Signer) :
+    ∀ (ss : List Signer), decides ss h s → scanSigners e h ss = checkSigner e s
+  | [], hd => absurd hd (decides_nil h s)
+  | c :: cs, hd => by
+      simp only [scanSigners]
+      by_cases hc : c.account = h
+      · rw [(decides_cons_eq hc s).mp hd]; simp [hc]
+      · rw [if_neg (by simpa using hc)]
+        exact scanSigners_decides e h s cs ((decides_cons_ne hc s).mp hd)
+
+theorem firstMatch_unique {e : Env} {rules : List Rule} {r r' : Rule}
+    (h1 : firstMatch e rules r) (h2 : firstMatch e rules r') : r = r' := by
+  induction rules with
+  | nil => obtain ⟨pre, post, heq, _⟩ := h1; simp at heq
+  | cons x xs ih =>
+    obtain ⟨pre, post, heq, hpre, hh⟩ := h1
+    obtain ⟨pre', post', heq', hpre', hh'⟩ := h2
+    cases pre with
+    | nil =>
+      cases pre' with
+      | nil => simp at heq heq'; rw [← heq.1, ← heq'.1]
+      | cons p ps =>
+        simp at heq heq'
+        exact absurd (heq.1 ▸ hh) (heq'.1 ▸ hpre' p (by simp))
+    | cons p ps =>
+      cases pre' with
+      | nil =>
+        simp at heq heq'
+        exact absurd (heq'.1 ▸ hh') (heq.1 ▸ hpre p (by simp))
+      | cons p' ps' =>
+        simp at heq heq'
+        exact ih ⟨ps, post, heq.2, fun y hy => hpre y (by simp [hy]), hh⟩
+          ⟨ps', post', heq'.2, fun y hy => hpre' y (by simp [hy]), hh'⟩
+
 end NeoModel.Witness
